@@ -849,5 +849,5 @@ def parts(ctx):
     _STATE["work"] = ctx.work
     return [
         EnumPart("db_tuples", lambda tier: len(_combos()), _combo_case, run_case),
-        HypPart("images", _cases(ctx.quick), run_case, {"quick": 512, "thorough": 20000}),
+        HypPart("images", _cases(ctx.quick), run_case, {"quick": 400, "thorough": 20000}),
     ]
